@@ -9,7 +9,14 @@ Style: transcribed function + TLC-evaluated cases + differential binding (DESIGN
           family dispatcher, DataConnection.decode_message_data plain and obfuscated) are fed the
           *prescribed* bytes; everything observed is recorded as a trace.
   pass 2 (CodecTrace):  TLC judges every recorded observation against Codec (ByteCompat, DecodeEqual,
-          ObfCompat, NoException).  The verdict comes from this pass only.
+          ObfCompat, FramesIntact, NoException).  The verdict comes from this pass only.
+
+Besides the enumerated message values and obfuscation vectors there are two kinds of big cases:
+  giant   a compressed message whose inflated body is 16..66 MiB (K copies of one element in one array
+          field): the pieces of the body, its length and the decoded fields are judged (truncation!);
+  conn    two or three messages, one above 128 KiB, sent concurrently through a real connection whose
+          peer is slow to read: the bytes written must be whole frames in some order, and a second real
+          connection must decode exactly the messages sent.
 """
 from __future__ import annotations
 
@@ -32,7 +39,7 @@ ANCHORS = os.path.join(os.path.dirname(L.LAYOUT_FILE), 'anchors.json')
 BATCH = 6000          # cases per TLC start (pass 1 and pass 2)
 JENV = {'JAVA_TOOL_OPTIONS': '-Xss64m'}      # deep (not infinite) recursion over long arrays
 
-_OUT = re.compile(r'<<\s*"([PO])",\s*(\d+),\s*"(\[[\d,\s]*\])"\s*>>')
+_OUT = re.compile(r'<<\s*"([POG])",\s*(\d+),\s*"(\[[\d,\s\[\]]*\])"\s*>>')
 
 
 # ---------------------------------------------------------------------------
@@ -124,7 +131,7 @@ def prescribe(chk: Check, cases: list, tmp: str, chunk: int = 8000, label: str =
         joined = ' '.join(res.prints)
         for m in _OUT.finditer(joined):
             out[base + int(m.group(2)) - 1] = json.loads(m.group(3))
-    want = [i for i, c in enumerate(cases) if c['kind'] in ('msg', 'obf')]
+    want = [i for i, c in enumerate(cases) if c['kind'] in ('msg', 'obf', 'giant')]
     missing = [i for i in want if i not in out]
     if missing:
         raise MachineryFailure(f'{len(missing)} prescribed byte strings missing from TLC output (first: case {missing[0]})')
@@ -340,14 +347,406 @@ def observe_obf(real: Real, case: dict, prescribed: list) -> list:
 
 
 # ---------------------------------------------------------------------------
+# giant compressed payloads ("all payload lengths"): inflated bodies of tens of MiB
+# ---------------------------------------------------------------------------
+# The value is K copies of one element in one array field (Codec!RepPieces).  TLC prescribes and
+# judges the *pieces* (pre, count, unit, post), the total length and the decoded fields; that the
+# 17..70 MiB byte string really is pre + count + K x unit + post (`periodic`), that all K decoded
+# elements are equal (`alleq`) and zlib inflation are computed by the harness - stated in the evidence.
+
+MIB = 1 << 20
+
+
+def _text(n, salt=0):
+    return [97 + ((i + salt) * 7) % 26 for i in range(n)]
+
+
+def _file_abs(fn, i=0):
+    return dict(unknown=[1], filename=_text(fn, i), filesize=L.limbs(0x100000000 + 7 * i, 4), extension=_text(3, i),
+                attributes=[dict(key=L.limbs(0, 2), value=L.limbs(320, 2)), dict(key=L.limbs(1, 2), value=L.limbs(200 + i, 2))])
+
+
+def _dir_abs(u):
+    """An abstract DirectoryData whose wire form is exactly u bytes (u >= 120)."""
+    for nf in (4, 3, 2, 1):
+        for fn in range(2000, 20, -1):
+            ln = u - 8 - nf * (40 + fn)
+            if 1 <= ln <= 3000:
+                return dict(name=_text(ln, 3), files=[_file_abs(fn, i) for i in range(nf)])
+    raise ValueError(u)
+
+
+def _boundary_unit(total, lo=300, hi=12000):
+    """(u, K) with K * u = total and lo <= u <= hi."""
+    for u in range(hi, lo - 1, -1):
+        if total % u == 0:
+            return u, total // u
+    raise ValueError(total)
+
+
+def giant_cases(thorough: bool) -> list:
+    u32 = lambda n: L.limbs(n, 2)
+    small_dir = _dir_abs(160)
+    out = []
+    for lim in [16 * MIB] + ([32 * MIB] if thorough else []):
+        # PeerSharesReply: count(4) + K*u + unknown(4) = lim exactly, then the trailing optional field
+        u, k = _boundary_unit(lim - 8)
+        out.append(dict(kind='giant', cls='PeerSharesReply.Request', rep='directories', elem=_dir_abs(u), K=k,
+                        rest=dict(unknown=u32(0), locked_directories=[small_dir]),
+                        note=f'body crosses {lim >> 20} MiB exactly in front of the trailing optional field'))
+    for lim in [16 * MIB] + ([64 * MIB] if thorough else []):
+        # PeerSearchReply: username(4+n) + ticket(4) + count(4) + K*2048 + 1 + 4 + 4 + 4 = lim exactly
+        n = (lim - 25) % 2048
+        out.append(dict(kind='giant', cls='PeerSearchReply.Request', rep='results', elem=_file_abs(2008),
+                        K=(lim - 25 - n) // 2048,
+                        rest=dict(username=_text(n), ticket=u32(3), has_slots_free=True, avg_speed=u32(1), queue_size=u32(0),
+                                  unknown=u32(0), locked_results=[_file_abs(25, 1), _file_abs(26, 2)]),
+                        note=f'body crosses {lim >> 20} MiB exactly in front of the trailing optional field'))
+    over = 17 * MIB + 12345
+    out.append(dict(kind='giant', cls='PeerSharesReply.Request', rep='directories', elem=_dir_abs(8000), K=over // 8000,
+                    rest=dict(unknown=u32(0)), note='17 MiB body, optional absent'))
+    out.append(dict(kind='giant', cls='PeerSearchReply.Request', rep='results', elem=_file_abs(2008), K=over // 2048,
+                    rest=dict(username=_text(9), ticket=u32(0xFFFFFFFE), has_slots_free=True, avg_speed=u32(1000),
+                              queue_size=u32(5), unknown=u32(0), locked_results=[_file_abs(30, 5)]),
+                    note='17 MiB body, locked results present'))
+    out.append(dict(kind='giant', cls='PeerDirectoryContentsReply.Request', rep='directories', elem=_dir_abs(6000),
+                    K=over // 6000, rest=dict(ticket=u32(77), directory=_text(40)), note='17 MiB body'))
+    if thorough:
+        out.append(dict(kind='giant', cls='PeerSearchReply.Request', rep='locked_results', elem=_file_abs(2008),
+                        K=(66 * MIB) // 2048,
+                        rest=dict(username=_text(9), ticket=u32(1), results=[_file_abs(20, 2)], has_slots_free=False,
+                                  avg_speed=u32(0), queue_size=u32(0), unknown=u32(0)),
+                        note='66 MiB body in the trailing optional field'))
+    return out
+
+
+def _summary(data: bytes, pieces, k: int) -> dict:
+    pre, unit, post = (bytes(x) for x in pieces)
+    lp, u = len(pre), len(unit)
+    end = lp + 4 + k * u
+    got_pre, cnt, got_unit, got_post = data[:lp], data[lp:lp + 4], data[lp + 4:lp + 4 + u], data[end:end + len(post) + 16]
+    periodic = len(data) == end + len(got_post) and data == got_pre + cnt + got_unit * k + got_post
+    return dict(len=len(data), pre=list(got_pre), cnt=list(cnt), unit=list(got_unit), post=list(got_post),
+                periodic=bool(periodic))
+
+
+def _giant_wire_event(ev, m, data, pieces, k):
+    if not isinstance(data, (bytes, bytearray)):
+        return dict(ev=ev, ok=False, exc=f'not bytes: {type(data).__name__}')
+    rec = dict(ev=ev, ok=True, bytes=list(data), zok=True,
+               sum=dict(len=0, pre=[], cnt=[], unit=[], post=[], periodic=False))
+    try:
+        rec['sum'] = _summary(zlib.decompress(bytes(data[4 + m['code_width']:])), pieces, k)
+    except zlib.error:
+        rec['zok'] = False
+    return rec
+
+
+def _giant_value_event(via, q, real_cls, m, pin, case, got):
+    name = q if type(got) is real_cls else f'{type(got).__module__}.{type(got).__qualname__}'
+    rep = case['rep']
+    f_rep = next(f for f in m['fields'] if f['name'] == rep)
+    try:
+        lst = getattr(got, rep)
+        if not isinstance(lst, (list, tuple)):
+            raise L.ShapeError(f'{rep}: {type(lst).__name__}')
+        first = L.to_abstract(f_rep['subtype'], 'none', lst[0], pin) if len(lst) else {}
+        alleq = bool(len(lst)) and all(x == lst[0] for x in lst)
+        rest = L.record_to_abstract([f for f in m['fields'] if f['name'] != rep], got, pin)
+    except (L.ShapeError, AttributeError) as exc:
+        return dict(ev='gdeser', via=via, ok=False, exc=f'result not of the pinned shape: {exc}'[:200], cls=name)
+    n = len(lst)
+    _consume(got)
+    return dict(ev='gdeser', via=via, ok=True, cls=name, n=n, alleq=alleq, first=first, rest=rest)
+
+
+def observe_giant(real: Real, case: dict, pieces: list, thorough: bool) -> list:
+    pin = real.pin
+    q, k = case['cls'], case['K']
+    m = pin['messages'][q]
+    trace = [dict(ev='gcase', cls=q, rest=case['rest'], rep=case['rep'], elem=case['elem'], K=k)]
+    cls = L.find_class(q)
+    if cls is None:
+        trace.append(dict(ev='missing', ok=False, exc='pinned message class not defined by the code'))
+        return trace
+    pre, unit, post = (bytes(x) for x in pieces)
+    z = zlib.compress(pre + k.to_bytes(4, 'little') + unit * k + post, 1)
+    fed = (m['code_width'] + len(z)).to_bytes(4, 'little') + m['code'].to_bytes(m['code_width'], 'little') + z
+    ev = _giant_wire_event('gfed', m, fed, pieces, k)
+    ev.pop('ok')
+    trace.append(ev)
+    msg = None
+    try:
+        kw = L.message_kwargs(q, case['rest'], pin)
+        f_rep = next(f for f in m['fields'] if f['name'] == case['rep'])
+        kw[case['rep']] = [L.to_real(f_rep['subtype'], 'none', case['elem'], pin)] * k
+        msg = cls(**kw)
+        trace.append(_giant_wire_event('gser', m, msg.serialize(), pieces, k))
+    except Exception as exc:
+        trace.append(_exc('gser', exc))
+    routes = [('class', lambda: cls.deserialize(0, fed)),
+              ('conn', lambda: real.conn(m['family'], False).decode_message_data(fed))]
+    if thorough:
+        base, dirs = L.FAMILIES[m['family']]
+        routes.insert(1, ('dispatch', lambda: getattr(getattr(real.M, base), dirs[m['direction']])(fed)))
+    for via, fn in routes:
+        try:
+            trace.append(_giant_value_event(via, q, cls, m, pin, case, fn()))
+        except Exception as exc:
+            trace.append(_exc('gdeser', exc, via=via))
+    if thorough and msg is not None:
+        obf = real.conn(m['family'], True)
+        try:
+            trace.append(_giant_wire_event('genc', m, real.conn(m['family'], False).encode_message_data(msg), pieces, k))
+        except Exception as exc:
+            trace.append(_exc('genc', exc))
+        sent = None
+        try:
+            sent = obf.encode_message_data(msg)
+            if not isinstance(sent, (bytes, bytearray)):
+                raise TypeError(f'not bytes: {type(sent).__name__}')
+            trace.append(dict(ev='encobf', ok=True, bytes=list(sent)))
+        except Exception as exc:
+            trace.append(_exc('encobf', exc))
+        if sent is not None:
+            try:
+                trace.append(_giant_value_event('conn_obf', q, cls, m, pin, case, obf.decode_message_data(bytes(sent))))
+            except Exception as exc:
+                trace.append(_exc('gdeser', exc, via='conn_obf'))
+    return trace
+
+
+# ---------------------------------------------------------------------------
+# connection level: messages sent concurrently over one connection, peer slow to read
+# ---------------------------------------------------------------------------
+
+class _GateWriter:
+    """The writer end of a simulated TCP connection with flow control as asyncio implements it:
+    drain() returns at once while the amount not yet taken by the peer is at most `high_water`,
+    otherwise it waits (any number of callers, woken in order) until the peer has read."""
+
+    def __init__(self, loop, high_water: int):
+        self.loop = loop
+        self.high_water = high_water
+        self.stream = bytearray()
+        self.buffered = 0
+        self.write_calls = 0
+        self.waiters: list = []
+        self._closing = False
+
+    def write(self, data):
+        data = bytes(data)
+        if self._closing:
+            return
+        self.stream += data
+        self.buffered += len(data)
+        self.write_calls += 1
+
+    def writelines(self, lines):
+        for line in lines:
+            self.write(line)
+
+    async def drain(self):
+        if self.buffered > self.high_water and not self._closing:
+            fut = self.loop.create_future()
+            self.waiters.append(fut)
+            await fut
+
+    def peer_reads(self):
+        self.buffered = 0
+        ws, self.waiters = self.waiters, []
+        for w in ws:
+            if not w.done():
+                w.set_result(None)
+
+    def close(self):
+        self._closing = True
+        self.peer_reads()
+
+    def is_closing(self):
+        return self._closing
+
+    async def wait_closed(self):
+        import asyncio
+        await asyncio.sleep(0)
+
+    def get_extra_info(self, name, default=None):
+        return ('127.0.0.1', 40000) if name in ('peername', 'sockname') else default
+
+    def can_write_eof(self):
+        return False
+
+    @property
+    def transport(self):
+        return self
+
+
+def conn_cases(thorough: bool) -> list:
+    u32 = lambda n: L.limbs(n, 2)
+
+    def userinfo(n):
+        return dict(cls='PeerUserInfoReply.Request',
+                    v=dict(description=_text(12), has_picture=True, picture=[(i * 31 + 7) % 256 for i in range(n)],
+                           upload_slots=u32(3), queue_size=u32(7), has_slots_free=True, upload_permissions=u32(1)))
+    q1 = dict(cls='PeerTransferQueue.Request', v=dict(filename=_text(30)))
+    q2 = dict(cls='PeerPlaceInQueueRequest.Request', v=dict(filename=_text(17, 4)))
+    chat = lambda n: dict(cls='RoomChatMessage.Request', v=dict(room=_text(6), message=_text(n, 2)))
+    status = dict(cls='SetStatus.Request', v=dict(status=u32(2)))
+    dsearch = lambda n: dict(cls='DistributedSearchRequest.Request',
+                             v=dict(unknown=u32(0x31), username=_text(8), ticket=u32(99), query=_text(n, 1)))
+    dlevel = dict(cls='DistributedBranchLevel.Request', v=dict(level=u32(3)))
+    big = 128 * 1024 + 200          # just above the 128 KiB at which a sender might start to cut
+    out = [
+        dict(family='peer', obf=False, mode='gather', hw=65536, msgs=[userinfo(big), q1]),
+        dict(family='peer', obf=True, mode='gather', hw=65536, msgs=[q1, userinfo(big), q2]),
+        dict(family='peer', obf=False, mode='queue', hw=0, msgs=[q2, userinfo(big), q1]),
+        dict(family='server', obf=False, mode='gather', hw=65536, msgs=[chat(big), status]),
+    ]
+    if thorough:
+        for n in (70 * 1024, 300 * 1024, 513 * 1024):
+            out.append(dict(family='peer', obf=False, mode='gather', hw=65536, msgs=[userinfo(n), q1, q2]))
+            out.append(dict(family='peer', obf=True, mode='queue', hw=0, msgs=[q1, userinfo(n), q2]))
+        out += [
+            dict(family='peer', obf=False, mode='tasks', hw=16384, msgs=[userinfo(big), userinfo(70 * 1024), q1]),
+            dict(family='server', obf=False, mode='queue', hw=0, msgs=[status, chat(300 * 1024), status]),
+            dict(family='distributed', obf=False, mode='gather', hw=65536, msgs=[dsearch(big), dlevel]),
+        ]
+    for i, c in enumerate(out):
+        c['kind'] = 'conn'
+        c['key'] = [(17 * i + 3) % 256, 200, 1, 128]
+    return out
+
+
+def observe_conn(real: Real, case: dict) -> list:
+    """Send the messages of the case concurrently through one real connection whose peer is slow to
+    read; record everything the connection wrote, then let a second real connection read it back."""
+    import asyncio
+    from unittest.mock import AsyncMock, Mock
+    from .. import vloop
+    pin = real.pin
+    trace = [dict(ev='conncase', obf=case['obf'], msgs=case['msgs'], family=case['family'], mode=case['mode'],
+                  hw=case['hw'])]
+    classes = [L.find_class(mm['cls']) for mm in case['msgs']]
+    if any(c is None for c in classes):
+        trace.append(dict(ev='missing', ok=False, exc='pinned message class not defined by the code'))
+        return trace
+
+    def network():
+        nw = Mock()
+        nw.on_state_changed = AsyncMock()
+        nw.on_peer_accepted = AsyncMock()
+        nw.on_message_received = AsyncMock()
+        return nw
+
+    def make_conn():
+        C = real.C
+        if case['family'] == 'server':
+            return C.ServerConnection('server.sim', 2416, network(), obfuscated=case['obf'])
+        ctype = C.PeerConnectionType.DISTRIBUTED if case['family'] == 'distributed' else C.PeerConnectionType.PEER
+        c = C.PeerConnection('1.2.3.4', 1234, network(), obfuscated=case['obf'], connection_type=ctype)
+        c.connection_state = C.PeerConnectionState.ESTABLISHED
+        return c
+
+    async def main(loop):
+        ends = []
+
+        async def open_connection(host=None, port=None, **kw):
+            await asyncio.sleep(0)
+            end = (asyncio.StreamReader(limit=2 ** 27), _GateWriter(loop, case['hw']))
+            ends.append(end)
+            return end
+
+        orig = asyncio.open_connection
+        asyncio.open_connection = open_connection
+        try:
+            msgs = [cls(**L.message_kwargs(mm['cls'], mm['v'], pin)) for cls, mm in zip(classes, case['msgs'])]
+            sender = make_conn()
+            await sender.connect()
+            writer = ends[0][1]
+            if case['mode'] == 'gather':          # Network.send_peer_messages / send_server_messages
+                tasks = [asyncio.ensure_future(asyncio.gather(*[sender.send_message(x) for x in msgs],
+                                                              return_exceptions=True))]
+            elif case['mode'] == 'queue':         # DataConnection.queue_messages
+                tasks = list(sender.queue_messages(*msgs))
+            else:
+                tasks = [asyncio.ensure_future(sender.send_message(x)) for x in msgs]
+            for _ in range(20000):
+                await vloop.settle(loop)
+                if all(t.done() for t in tasks):
+                    break
+                if writer.waiters:
+                    writer.peer_reads()           # the slow peer finally takes what is buffered
+                else:
+                    await asyncio.sleep(0.01)     # (virtual time) a sender that paces itself with timers
+            else:
+                trace.append(dict(ev='send', ok=False, exc='a send never completed'))
+            for t in tasks:
+                if t.done() and not t.cancelled():
+                    res = [t.exception()] if t.exception() is not None else \
+                        (t.result() if isinstance(t.result(), list) else [])
+                    for r in res:
+                        if isinstance(r, BaseException):
+                            trace.append(_exc('send', r))
+            stream = bytes(writer.stream)
+            trace.append(dict(ev='stream', ok=True, bytes=list(stream), write_calls=writer.write_calls))
+            # the receiving side: a second real connection reads the stream back
+            if not (case['family'] == 'server'):
+                receiver = make_conn()
+                await receiver.connect()
+                reader = ends[1][0]
+                reader.feed_data(stream)
+                reader.feed_eof()
+                for _ in msgs:
+                    try:
+                        got = await receiver.receive_message_object()
+                    except Exception as exc:
+                        trace.append(_exc('recv', exc))
+                        break
+                    if got is None:
+                        trace.append(dict(ev='recv', ok=False, exc='end of stream before every message was received'))
+                        break
+                    q = next((mm['cls'] for cls, mm in zip(classes, case['msgs']) if type(got) is cls), None)
+                    if q is None:
+                        trace.append(dict(ev='recv', ok=False, exc=f'unexpected class {type(got).__qualname__}'))
+                        break
+                    try:
+                        a = L.record_to_abstract(pin['messages'][q]['fields'], got, pin)
+                    except L.ShapeError as exc:
+                        trace.append(dict(ev='recv', ok=False, exc=f'result not of the pinned shape: {exc}'[:200]))
+                        break
+                    trace.append(dict(ev='recv', ok=True, cls=q, v=a))
+                else:
+                    trace.append(dict(ev='recvdone'))
+        finally:
+            asyncio.open_connection = orig
+
+    vloop.run(main)
+    return trace
+
+
+# ---------------------------------------------------------------------------
 
 def _fingerprint(tid, info, trace):
     ev = info.get('event') or {}
-    subject = trace[0].get('cls', 'obfuscation')
+    first = trace[0]
+    if first.get('ev') == 'conncase':
+        subject = f"connection:{first.get('family')}:{'obfuscated' if first.get('obf') else 'plain'}:{first.get('mode')}"
+    elif first.get('ev') == 'gcase':
+        subject = f"{first.get('cls')}:giant"
+    else:
+        subject = first.get('cls', 'obfuscation')
     what = ev.get('ev', '?') + (f":{ev['via']}" if 'via' in ev else '')
     if info.get('kind') == 'property':
         return f"C01:{info.get('name')}:{what}:{subject}"
     return f"C01:unexplained:{what}:{subject}"
+
+
+def _shorten(o, n=48):
+    if isinstance(o, dict):
+        return {k: _shorten(v, n) for k, v in o.items()}
+    if isinstance(o, list):
+        return [_shorten(x, n) for x in o[:n]] + (['...'] if len(o) > n else [])
+    return o
 
 
 def _trace_key(tr):
@@ -390,10 +789,20 @@ def _run(chk: Check, pin: dict, tmp: str, per_class: int, keys_per_len: int, tho
                       '(exhaustive over the spec-defined domain)', r)
         with open(ANCHORS) as fh:
             anchors = json.load(fh)
-    cases = build_cases(chk, pin, per_class, keys_per_len) if replay_case is None else [replay_case]
+    if replay_case is None:
+        # the few big cases first: they are part of the first batch (and of its self-test)
+        cases = giant_cases(thorough) + conn_cases(thorough) + build_cases(chk, pin, per_class, keys_per_len)
+    else:
+        cases = [replay_case]
     nmsg = sum(1 for c in cases if c['kind'] == 'msg')
-    chk.log(f'{len(cases)} cases ({nmsg} message values over {len(pin["messages"])} classes, '
-            f'{len(cases) - nmsg} obfuscation vectors), {len(anchors)} hand-written anchors')
+    nk = {k: sum(1 for c in cases if c['kind'] == k) for k in ('obf', 'giant', 'conn')}
+    chk.log(f'{len(cases)} cases ({nmsg} message values over {len(pin["messages"])} classes, {nk["obf"]} obfuscation '
+            f'vectors, {nk["giant"]} giant compressed payloads, {nk["conn"]} concurrent-send scenarios), '
+            f'{len(anchors)} hand-written anchors')
+    chk.cov['giant_payload_cases'] = [f"{c['cls']}: {c.get('note', '')} (K={c['K']})" for c in cases if c['kind'] == 'giant']
+    chk.cov['connection_scenarios'] = [
+        f"{c['family']} {'obfuscated' if c['obf'] else 'plain'} {c['mode']} high-water {c['hw']}: " +
+        ' + '.join(f"{mm['cls']}" for mm in c['msgs']) for c in cases if c['kind'] == 'conn']
     chk.cov['anchors_checked_by_tlc'] = len(anchors)
     chk.cov['message_shapes_covered'] = len({(c['cls'], tuple(sorted(c['v']))) for c in cases if c['kind'] == 'msg'})
     chk.cov['classes_covered'] = len({c['cls'] for c in cases if c['kind'] == 'msg'})
@@ -407,22 +816,32 @@ def _run(chk: Check, pin: dict, tmp: str, per_class: int, keys_per_len: int, tho
     chk.cov['byte_and_value_comparisons'] = 0
     rejected_subjects = set()
     nacc = nrej = 0
-    for base in range(0, len(cases), BATCH):
-        batch = cases[base:base + BATCH]
+    # the first batch holds the big cases; it is kept small so that TLC's heap is not the limit
+    nspecial = sum(1 for c in cases if c['kind'] in ('giant', 'conn'))
+    first = min(len(cases), nspecial + 1500) if len(cases) > BATCH else len(cases)
+    bounds = [(0, first)] + [(b, min(b + BATCH, len(cases))) for b in range(first, len(cases), BATCH)]
+    for base, stop in bounds:
+        batch = cases[base:stop]
         extra = [{k: v for k, v in a.items() if k != 'src'} for a in anchors] if base == 0 else []
         # ---- pass 1: theorems + prescribed bytes ----------------------------------------------
         prescribed = prescribe(chk, batch + extra, tmp, label=f'(batch at {base}' + (f', incl. {len(extra)} anchors)' if extra else ')'))
         # ---- the real code ---------------------------------------------------------------------
         traces = []
         for i, c in enumerate(batch):
-            tr = observe_message(real, c, prescribed[i]) if c['kind'] == 'msg' else observe_obf(real, c, prescribed[i])
+            if c['kind'] == 'msg':
+                tr = observe_message(real, c, prescribed[i])
+            elif c['kind'] == 'obf':
+                tr = observe_obf(real, c, prescribed[i])
+            elif c['kind'] == 'giant':
+                tr = observe_giant(real, c, prescribed[i], thorough)
+            else:
+                tr = observe_conn(real, c)
             traces.append(tr)
             chk.count(_trace_key(tr))
-        chk.cov['byte_and_value_comparisons'] += sum(1 for tr in traces for e in tr[1:] if e['ev'] not in ('fed', 'obffed'))
+        chk.cov['byte_and_value_comparisons'] += sum(1 for tr in traces for e in tr[1:] if e['ev'] not in ('fed', 'obffed', 'gfed'))
         if base == 0:
-            for i in (0, len(traces) // 3, len(traces) // 2, len(traces) - 1):
-                chk.sample([{k: (v if not isinstance(v, list) or len(v) <= 48 else v[:48] + ['...'])
-                             for k, v in e.items()} for e in traces[i][:4]])
+            for i in (0, len(traces) // 3, len(traces) // 2, len(traces) - 1, min(8, len(traces) - 1)):
+                chk.sample([_shorten(e) for e in traces[i][:4]])
         # ---- pass 2: TLC judges ------------------------------------------------------------------
         v = tlc.validate_traces(TRACE, 'Trace.cfg', traces, diag_cfg='TraceDiag.cfg', workers=WORKERS, timeout=1500,
                                 env=JENV, chunk=BATCH, max_diag=5 if nrej == 0 else 1)
@@ -432,7 +851,7 @@ def _run(chk: Check, pin: dict, tmp: str, per_class: int, keys_per_len: int, tho
         chk.apply_verdicts(v, traces, _fingerprint, meta_of=lambda tid, base=base: dict(case_index=base + tid - 1))
         nacc += len(v.accepted)
         nrej += len(v.rejected)
-        rejected_subjects |= {traces[t - 1][0].get('cls', 'obfuscation') for t in v.rejected}
+        rejected_subjects |= {traces[t - 1][0].get('cls', traces[t - 1][0].get('ev')) for t in v.rejected}
         chk.log(f'cases [{base}..{base + len(batch)}): {len(v.accepted)} accepted, {len(v.rejected)} rejected by TLC')
         if replay_case is not None:
             for e in traces[0]:
@@ -463,6 +882,14 @@ def _run(chk: Check, pin: dict, tmp: str, per_class: int, keys_per_len: int, tho
         'in-domain = condition false => field absent, condition true => field present, optionals present as a prefix '
         'of the optional tail (anything else is not representable on the wire)',
         'obfuscation keys drawn inside encode_message_data come from secrets.token_bytes, replaced by a seeded generator',
+        'giant compressed payloads (inflated body 16..66 MiB): the value is K copies of one element in one array field; '
+        'TLC prescribes and judges the pieces (prefix, count, one unit, suffix), the total length, the number of decoded '
+        'elements, the first decoded element and every other field; that the inflated byte string equals prefix + count '
+        '+ K x unit + suffix and that all K decoded elements are equal is computed by the harness (bytes / == comparison), '
+        'not shipped through TLC',
+        'connection level: the peer is modelled by asyncio flow control (drain() waits, for any number of callers, while '
+        'more than the high-water mark is unread; the slow peer reads whenever the loop is quiescent); the messages are '
+        'sent with asyncio.gather(send_message...), queue_messages and one task per message, as the library does',
     ]
 
 
@@ -511,6 +938,19 @@ def selftest(chk: Check, traces: list, v) -> dict:
         tr = copy.deepcopy(traces[tid - 1]); tr[i]['bytes'] = flip(tr[i]['bytes'], rng); bad.append(tr); kinds.append('obfenc-byte')
     for tid, i in pick(lambda tr, e: e['ev'] == 'obfdec' and e.get('ok') and len(e['bytes']) > 0, 3):
         tr = copy.deepcopy(traces[tid - 1]); tr[i]['bytes'] = flip(tr[i]['bytes'], rng); bad.append(tr); kinds.append('obfdec-byte')
+    # (f) a frame cut in two by another frame on a connection; a message lost by the receiver
+    for tid, i in pick(lambda tr, e: e['ev'] == 'stream' and e.get('ok') and len(e['bytes']) > 2000, 2):
+        tr = copy.deepcopy(traces[tid - 1]); b = tr[i]['bytes']; tr[i]['bytes'] = b[:1000] + b[-40:] + b[1000:-40]
+        bad.append(tr); kinds.append('stream-interleaved')
+    for tid, i in pick(lambda tr, e: e['ev'] == 'recv' and e.get('ok'), 1):
+        tr = copy.deepcopy(traces[tid - 1]); del tr[i]; bad.append(tr); kinds.append('recv-lost')
+    # (g) giant payloads: a truncated decode, a wrong total length
+    for tid, i in pick(lambda tr, e: e['ev'] == 'gdeser' and e.get('ok') and len(e['rest']) > 1, 2):
+        tr = copy.deepcopy(traces[tid - 1]); tr[i]['rest'].pop(sorted(tr[i]['rest'])[0]); bad.append(tr); kinds.append('giant-field-lost')
+        tr = copy.deepcopy(traces[tid - 1]); tr[i]['n'] -= 1; bad.append(tr); kinds.append('giant-element-lost')
+    for tid, i in pick(lambda tr, e: e['ev'] == 'gser' and e.get('ok'), 1):
+        tr = copy.deepcopy(traces[tid - 1]); tr[i]['sum']['len'] += 1; bad.append(tr); kinds.append('giant-length')
+        tr = copy.deepcopy(traces[tid - 1]); tr[i]['sum']['periodic'] = False; bad.append(tr); kinds.append('giant-not-periodic')
     # (e) an exception event
     for tid, i in pick(lambda tr, e: e['ev'] == 'ser' and e.get('ok'), 1):
         tr = copy.deepcopy(traces[tid - 1]); tr[i] = dict(ev='ser', ok=False, exc='struct.error'); bad.append(tr); kinds.append('exception')
@@ -612,8 +1052,14 @@ def _dump(obj, tmp, name):
 def replay(chk: Check, data: dict):
     """./check C01 --replay FILE: re-run the case of a replay file on the current code and judge it."""
     first = data['replay']['trace'][0]
-    case = (dict(kind='msg', cls=first['cls'], v=first['v'], key=[1, 2, 3, 4]) if first['ev'] == 'case'
-            else dict(kind='obf', key=first['key'], data=first['data']))
+    if first['ev'] == 'case':
+        case = dict(kind='msg', cls=first['cls'], v=first['v'], key=[1, 2, 3, 4])
+    elif first['ev'] == 'gcase':
+        case = dict(kind='giant', **{k: first[k] for k in ('cls', 'rest', 'rep', 'elem', 'K')})
+    elif first['ev'] == 'conncase':
+        case = dict(kind='conn', key=[1, 2, 3, 4], **{k: first[k] for k in ('obf', 'msgs', 'family', 'mode', 'hw')})
+    else:
+        case = dict(kind='obf', key=first['key'], data=first['data'])
 
     class A:
         replay_case = case
